@@ -1,7 +1,7 @@
 """C17 — every spelling of an operator computes the same value."""
 import algebra as A
 from algebra import El, ZERO, ONE
-from core import (Harness, VEC, PNT, MAT, sv, sm, sq, ss, Run, Conv, run_specs, report_dropped, ret_leaves, cmp_struct, single_ret, flat, check_fold, el_of)
+from core import (Harness, VEC, PNT, MAT, sv, sm, sq, ss, Run, Conv, run_specs, report_dropped, ret_leaves, cmp_struct, single_ret, flat, check_fold, check_accumulate, el_of)
 import facts
 import specs
 
@@ -247,7 +247,20 @@ def check_foldroot(run, S, name, spec, kw):
             exp = list(p[1]) + [p[0]]
             return all(A.eq(el_of(x), y) for x, y in zip(res, exp))
         return False
-    check_fold(run, S, name, init, step, what='sum' if k == 'vadd' else 'product')
+    def step_exp(acc, item):
+        # flat accumulator / item leaves in field order -> flat expected leaves
+        if k == 'vadd':
+            return [x + y for x, y in zip(acc, item)]
+        if k == 'matmul':
+            n = stepkind[1]
+            a = [acc[c * n:(c + 1) * n] for c in range(n)]
+            b = [item[c * n:(c + 1) * n] for c in range(n)]
+            return flat(A.matmul(a, b))
+        if k == 'qmul':
+            p_ = specs.qmul((acc[3], acc[:3]), (item[3], item[:3]))
+            return list(p_[1]) + [p_[0]]
+        return []
+    check_accumulate(run, S, name, init, step_exp, step, what='sum' if k == 'vadd' else 'product')
 
 
 def leaf_atoms(S, prefix, tag, n):
